@@ -270,15 +270,22 @@ func (e *Enc) encodeCall(instr ssa.CallInstruction, v *ssa.Call, st *State) {
 		}
 		// variadic parameters arrive as a slice already in SSA
 		for i, cl := range cc.Requires {
-			c := e.calleeCtx(cc, st, nil, vars, fmt.Sprintf("%s requires#%d at call in %s", ct.key, i+1, e.key))
-			goal := c.boolTerm(cl.E)
 			lab := cl.Label
 			if lab == "" {
 				lab = fmt.Sprint(i + 1)
 			}
-			o := e.oblig("pre", fmt.Sprintf("pre[%s]@call#%d(%s)", lab, ord, shortKey(ct.key)), goal, cl.Src+"   [precondition of "+ct.key+" at "+posOf(e.fn, instr.Pos())+"]", nil)
-			_ = o
-			e.fact(goal)
+			// one obligation per top-level conjunct: better diagnostics, smaller queries
+			parts := splitConj(cl.E)
+			for pi, pe := range parts {
+				c := e.calleeCtx(cc, st, nil, vars, fmt.Sprintf("%s requires#%d at call in %s", ct.key, i+1, e.key))
+				goal := c.boolTerm(pe)
+				name := lab
+				if len(parts) > 1 {
+					name = fmt.Sprintf("%s.%d", lab, pi+1)
+				}
+				e.oblig("pre", fmt.Sprintf("pre[%s]@call#%d(%s)", name, ord, shortKey(ct.key)), goal, pe.String()+"   [precondition of "+ct.key+" at "+posOf(e.fn, instr.Pos())+"]", nil)
+				e.fact(goal)
+			}
 		}
 		if cc.Assumed || cc.Trusted {
 			e.assumed[ct.key] = true
@@ -661,6 +668,8 @@ func (e *Enc) encodeSortCall(common *ssa.CallCommon, st *State) bool {
 		qi, qi, qi, x, perm, qi, perm, qi, x, newArr, x, qi, oldArr, x, perm, qi, newArr, x, qi))
 	e.fact(fmt.Sprintf("(forall ((%s Int)) (! (=> (and (<= 0 %s) (< %s (s.len %s))) (and (<= 0 (%s %s)) (< (%s %s) (s.len %s)) (= (select %s (at (s.off %s) (%s %s))) (select %s (at (s.off %s) %s))))) :pattern ((select %s (at (s.off %s) %s)))))",
 		qi, qi, qi, x, inv, qi, inv, qi, x, newArr, x, inv, qi, oldArr, x, qi, oldArr, x, qi))
+	e.fact(fmt.Sprintf("(forall ((%s Int)) (! (=> (and (<= 0 %s) (< %s (s.len %s))) (and (= (%s (%s %s)) %s) (= (%s (%s %s)) %s))) :pattern ((%s %s)) :pattern ((%s %s))))",
+		qi, qi, qi, x, inv, perm, qi, qi, perm, inv, qi, qi, perm, qi, inv, qi))
 	// other arrays unchanged
 	e.fact(fmt.Sprintf("(forall ((%s Int)) (! (=> (not (= %s (s.arr %s))) (= (select %s %s) (select %s %s))) :pattern ((select %s %s))))", qi, qi, x, nh, qi, old, qi, nh, qi))
 	// cells of the same array outside the slice unchanged
@@ -688,4 +697,11 @@ func (e *Enc) encodeSortCall(common *ssa.CallCommon, st *State) bool {
 	}
 	e.assumed["sort."+sc.Name()+" (permutes its argument; ordered by the contract of "+lessKey+")"] = true
 	return true
+}
+
+func splitConj(e Expr) []Expr {
+	if b, ok := e.(*EBinary); ok && b.Op == "&&" {
+		return append(splitConj(b.X), splitConj(b.Y)...)
+	}
+	return []Expr{e}
 }
